@@ -46,6 +46,8 @@ def snap_dm(dm):
         s[f"dominated{int(strict)}"] = dom.dominated(strict=strict).to_numpy().tolist()
         s[f"dominators{int(strict)}"] = [[repr(x) for x in dom.dominators_of(a, strict=strict)] for a in dm.alternatives]
         s[f"loops{int(strict)}"] = bool(dom.has_loops(strict=strict))
+    # the same query spelled without the keyword (memoisation keys differ by spelling)
+    s["dominators_default"] = [[repr(x) for x in dom.dominators_of(a)] for a in dm.alternatives]
     s["bt"] = dom.bt().to_numpy().tolist()
     s["eq"] = dom.eq().to_numpy().tolist()
     s["describe"] = b64(dm.describe().to_numpy())
